@@ -1,4 +1,4 @@
-import GateryModel.C16.Chains
+import GateryModel.C16.Live2
 /-!
 # C16 — property theorems
 
@@ -17,7 +17,7 @@ cycle); `Good S T ok` says: for every environment that keeps the interface law o
 that was not accepted/committed) and the output keeps the interface law. `T` is the list specification
 (`Trans.idT` = identity for the 1:1 stages, `extSpec`/`redSpec` for the width changers, characterised below).
 Proofs: `C16/Lemmas.lean` (generic refinement arguments + composition), `Stages.lean`, `FifoProof.lean`, `Width.lean`,
-`Chains.lean`.
+`Chains.lean`, `Live.lean`, `Live2.lean`.
 
 Not in this file (see the check's evidence / report): the tie of each model to the C++ is by correspondence
 (harness/c16.cpp | Driver/C16.lean); the FIFO's pointer/memory storage is abstracted to a list (that is property C15).
@@ -107,6 +107,38 @@ theorem fifo_conserves {α : Type} (d0 : α) (depth lat : Nat) (ft : Bool) (hok 
     (fifo d0 depth lat ft).outs env t ++ ((fifo d0 depth lat ft).state env t).q = (fifo d0 depth lat ft).ins env t :=
   (qFifo hok).conserve env t
 
+/-! ### eventual delivery under fair readiness (an extra: the statement of C16 itself is the safety part above)
+
+`Live S T ok dn up`: for every environment that keeps the input law and satisfies `ok`, if the consumer is fair
+(`dn = true`: ready infinitely often unconditionally; `dn = false`: ready may wait for valid, but an offered beat is
+eventually taken) then every accepted beat is eventually emitted — with `Good.safe`: exactly once — and the stage is a
+fair consumer of strength `up` itself. -/
+
+theorem regDownstream_live {α : Type} (d0 : α) : Live (regDownstream d0) Trans.idT okTrue false true := live_regDownstream d0
+/-- the blocking register needs `dn = true` (utils.h:33 "valid will not become high while ready is low") -/
+theorem regDownstreamBlocking_live {α : Type} (d0 : α) : Live (regDownstreamBlocking d0) Trans.idT okTrue true true :=
+  live_regDownstreamBlocking d0
+theorem regReady_live {α : Type} (d0 : α) : Live (regReady d0) Trans.idT okTrue false true := live_regReady d0
+theorem regDecouple_live {α : Type} (d0 : α) : Live (regDecouple d0) Trans.idT okTrue false true := live_regDecouple d0
+theorem delay_live {α : Type} (d0 : α) (n : Nat) : Live (delay d0 (n+1)) Trans.idT okTrue false true := live_delay d0 n
+theorem stall_live {α : Type} (dn up : Bool) : Live (stall (α := α)) Trans.idT (stallFair up) dn up := live_stall dn up
+theorem extendWidth_live {α β δ : Type} (ratio : Nat) (d0 : δ) (dataOf : α → δ) (mk : List δ → α → β) (hr : 0 < ratio) (b : Bool) :
+    Live (extendWidth ratio d0 dataOf mk) (extSpec ratio dataOf mk) okTrue b b := live_extendWidth ratio d0 dataOf mk hr b
+/-- `reduceWidth` is only a weakly fair consumer (`up = false`): its ready waits for valid -/
+theorem reduceWidth_live {α β : Type} (ratio : Nat) (slice : Nat → α → β) (hr : 0 < ratio) :
+    Live (reduceWidth ratio slice) (redSpec ratio slice) okTrue false false := live_reduceWidth ratio slice hr
+
+/-- composition is live if the second stage is a fair enough consumer for the first (`upB = true ∨ dnA = false`);
+    `regDownstreamBlocking | reduceWidth` (`dnA = true`, `upB = false`) is exactly what this excludes — the real chain gets
+    stuck for good (harness mode 2, observation `undelivered:dsb>red`). -/
+theorem compose_live {α β γ : Type} (A : Stage α β) (B : Stage β γ) {T : Trans α β} {U : Trans β γ}
+    {okA okLA : Env α → Prop} {okLB : Env β → Prop} {dnA upA dnB upB : Bool}
+    (gA : Good A T okA) (lA : Live A T okLA dnA upA) (lB : Live B U okLB dnB upB) (h : upB = true ∨ dnA = false) :
+    Live (comp A B) (T.comp U) (okLiveComp A B okA okLA okLB) dnB upA := live_comp A B gA lA lB h
+
+theorem chain_live {α β : Type} {ch : Chain α β} {T : Trans α β} {ok : Env α → Prop} {dn up : Bool}
+    (h : LiveChain ch T ok dn up) : Live ch.toStage T ok dn up := h.live
+
 /-! ### non-vacuity -/
 
 /-- the premises are satisfiable: a law-abiding producer exists for every stage (never valid), and a non-trivial one for
@@ -121,5 +153,13 @@ example : FifoOk 4 2 false ∧ FifoOk 16 1 true ∧ ¬ FifoOk 0 1 false := by
 example : ∃ T ok, GoodChain (chainOf [.dec, .fifo 4 2 false, .ext 2 8, .dly 3, .red 2 8]) T ok :=
   ⟨_, _, .cons (good_regDecouple _) (.cons (good_fifo _ 4 2 false ⟨by decide, by decide⟩)
     (.cons (good_extendWidth 2 _ _ _ (by decide)) (.cons (good_delay _ 3) (.cons (good_reduceWidth 2 _ (by decide)) .nil))))⟩
+
+/-- a live chain `delay 2 | regDecouple | extendWidth 2 | regDownstream | reduceWidth 2` -/
+example : ∃ T ok, LiveChain (chainOf [.dly 2, .dec, .ext 2 8, .ds, .red 2 8]) T ok false true :=
+  ⟨_, _, .cons (good_delay _ 2) (live_delay _ 1) (.cons (good_regDecouple _) (live_regDecouple _)
+    (.cons (good_extendWidth 2 _ _ _ (by decide)) (live_extendWidth 2 _ _ _ (by decide) true)
+      (.cons (good_regDownstream _) (live_regDownstream _)
+        (.cons (good_reduceWidth 2 _ (by decide)) (live_reduceWidth 2 _ (by decide)) (.nil false) (Or.inr rfl))
+        (Or.inr rfl)) (Or.inl rfl)) (Or.inr rfl)) (Or.inl rfl)⟩
 
 end Gatery.C16.Props
